@@ -15,6 +15,10 @@ class E(Exception):
   """The exception generated programs raise explicitly (no custom __init__)."""
 
 
+class E2(Exception):
+  """An exception class that is never raised (handlers for it never match)."""
+
+
 class Obj(object):
   def __init__(self):
     self.a = 7
